@@ -395,6 +395,76 @@ def overlapping_calls(out):
                               f"give {results}, must give {want}", {"overlap": [ck, style]})
 
 
+def after_aborted_checks(out):
+    """the verdict of a call depends on the signature and the shapes, not on what other checks did before in the thread:
+    the same calls before and after checks that were ABORTED by an exception (a PyTree whose leaf type raises while the
+    tree is being flattened, a custom pytree node whose flatten raises, an array whose `.shape` raises), all caught"""
+    import jax.tree_util as jtu
+
+    Duck = ARRAY_CLASSES["Duck"]
+
+    class Exploding:
+        pass
+
+    def boom(_):
+        raise RuntimeError("flatten")
+
+    try:
+        jtu.register_pytree_node(Exploding, boom, lambda aux, ch: Exploding())
+    except ValueError:
+        pass
+
+    class BadShape:
+        dtype = "float32"
+
+        @property
+        def shape(self):
+            raise RuntimeError("shape")
+
+    def aborted():
+        done = []
+        for what, thunk in (
+            ("leaf type raises", lambda: isinstance([1.0, 2.0], jaxtyping.PyTree[jaxtyping.Float])),
+            ("flatten raises", lambda: isinstance([Exploding()], jaxtyping.PyTree[int])),
+            ("shape raises", lambda: isinstance(BadShape(), jaxtyping.Float[BadShape, "a b"])),
+            ("leaf type raises, structured", lambda: isinstance({"k": 1.0}, jaxtyping.PyTree[jaxtyping.Float, "T"])),
+        ):
+            try:
+                thunk()
+                done.append(what + ": returned")
+            except BaseException as e:  # noqa: BLE001
+                done.append(what + ": " + type(e).__name__)
+        return done
+
+    for ck, tc in CHECKERS.items():
+        for style in ("new", "old"):
+            def mk(fn, anns):
+                fn.__annotations__ = anns
+                return jaxtyped(typechecker=tc)(fn) if style == "new" else jaxtyped(tc(fn))
+
+            def f0(x, y):
+                return None
+
+            def g0(x, y):
+                return None
+
+            f = mk(f0, {"x": jaxtyping.Float[Duck, "a b"], "y": jaxtyping.Float[Duck, "b"]})
+            g = mk(g0, {"x": jaxtyping.Float[Duck, "*batch c"], "y": jaxtyping.Int[Duck, "*batch"]})
+            v = lambda sh, dt="float32": val_of({"shape": list(sh), "cat": "Float" if dt == "float32" else "Int", "dtype": dt})  # noqa: E731
+            calls = [(f, [v((2, 3)), v((3,))], "accept"), (f, [v((2, 3)), v((4,))], "reject"), (f, [v((2,)), v((2,))], "reject"),
+                     (g, [v((2, 3, 4)), v((2, 3), "int32")], "accept"), (g, [v((2, 3, 4)), v((2, 4), "int32")], "reject"),
+                     (g, [v((2, 3, 4)), v((2, 3))], "reject")]
+            before = [classify(fn, a, {}) for fn, a, _ in calls]
+            how = aborted()
+            after = [classify(fn, a, {}) for fn, a, _ in calls]
+            want = [w for _, _, w in calls]
+            out.case(("after-aborted", ck, style), True, sample={"checker": ck, "style": style, "aborted": how, "before": before, "after": after})
+            if before != want or after != want:
+                out.violation(f"after-aborted:{ck}/{style}", f"six calls of two array functions ({ck}, {style}-style) must give {want}; before the aborted checks they give {before}, "
+                              f"after them ({how}) they give {after}", {"after_aborted": [ck, style]})
+                return
+
+
 def run(tier, seed, out, drv, facts):
     rng = Rng(seed, "C02")
     thorough = tier == "thorough"
@@ -415,9 +485,13 @@ def run(tier, seed, out, drv, facts):
     for case in probe_cases(rng, 400 if thorough else 40):
         run_case(out, drv, facts, case, rng, 0)
     overlapping_calls(out)
+    after_aborted_checks(out)
 
 
 def replay(rep, out, drv, facts):
+    if "after_aborted" in rep:
+        after_aborted_checks(out)
+        return
     if "overlap" in rep:
         overlapping_calls(out)
         return
